@@ -3,7 +3,7 @@
 
   tools/import_seeds.py <keep-dir> <verify-results.jsonl>... -- <matrix-results.jsonl>...
 
-<keep-dir> holds seed/<ID>/<A|B>, seed2/<ID>/<C|D> (patch.diff, *_test.go, NOTES.md) and eq*/<E>/<R>/ (patch.diff, NOTES.md).
+<keep-dir> holds seed/<ID>/<A|B>, seed2/<ID>/<C|D>, ... seed6/<ID>/<K|L> (patch.diff, *_test.go, NOTES.md) and eq*/<E>/<R>/ (patch.diff, NOTES.md).
 The verify results come from tools/verify_seed.sh (one JSON per line), the matrix results from tools/catch_matrix.sh.
 meta.json records: the property the change breaks, what it needs in order to manifest (first paragraphs of NOTES.md),
 what was run to confirm it, and which checks of this repository catch it (caught_by).
@@ -45,8 +45,8 @@ def main():
     verify = load_jsonl(rest[:split])
     matrix = load_jsonl(rest[split + 1:])
     n = 0
-    for sub in ("seed", "seed2", "seed3", "seed4", "seed5"):
-        for d in sorted(glob.glob(os.path.join(keep, sub, "C*", "[A-J]"))):
+    for sub in ("seed", "seed2", "seed3", "seed4", "seed5", "seed6"):
+        for d in sorted(glob.glob(os.path.join(keep, sub, "C*", "[A-L]"))):
             pid, var = d.split("/")[-2], d.split("/")[-1]
             name = "%s-%s" % (pid, var)
             v = verify.get(name)
